@@ -682,6 +682,12 @@ class Symex:
                 return t_div(a, b)
             if isinstance(a, float) or isinstance(b, float):
                 return a / b
+            if getattr(a, "_symexpr", False) or getattr(b, "_symexpr", False):
+                # model values of a rule that implement their own arithmetic
+                try:
+                    return a / b
+                except TypeError:
+                    self.unsupported(node, "division of unsupported values")
             self.unsupported(node, "true division")
         if isinstance(op, ast.Pow) and is_num(a) and isinstance(b, int):
             return t_pow(a, b)
@@ -980,7 +986,9 @@ class Symex:
             # class attribute
             c = obj.module.classes[obj.qual]
             for st in c.body:
-                if isinstance(st, ast.Assign) and any(isinstance(t, ast.Name) and t.id == attr for t in st.targets):
+                if isinstance(st, ast.Assign) and any(isinstance(t, ast.Name) and t.id == attr for t in st.targets) \
+                        or isinstance(st, ast.AnnAssign) and isinstance(st.target, ast.Name) and st.target.id == attr \
+                        and st.value is not None:
                     saved = (self.frames, self.module)
                     self.frames, self.module = [{}], obj.module
                     try:
@@ -998,6 +1006,11 @@ class Symex:
             return getattr(obj, attr)
         if isinstance(obj, Func) and attr == "__name__":
             return getattr(obj.node, "name", "<lambda>")
+        if self.attr_hook is not None:
+            # model values supplied by a rule (hooks may return arbitrary python objects)
+            r = self.attr_hook(self, obj, attr, node)
+            if r is not NotImplemented:
+                return r
         self.unsupported(node, f"attribute {attr} of {type(obj).__name__}")
 
     def find_method(self, clsref, name, _seen=None):
